@@ -152,6 +152,11 @@ MUTS = [
     ('SK7', 'change', 'C14', T, "        except StopIteration:\n            break\n        if id_ >= 300000:", "        except StopIteration:\n            return []\n        if id_ >= 300000:"),
     ('SK8', 'preserve', 'C14', T, "        if id_ >= 300000:\n            descriptors.append(d.lookup(id_))", "        if 300000 <= id_:\n            descriptors.append(d.lookup(id_))"),
     ('SK9', 'preserve', 'C14', T, "            # TODO: check whether the actual number of members equals to n_items\n", ""),
+    # descriptors.py BufrTemplate.original_descriptor_ids (last round)
+    ('SL1', 'change', 'C14', D, "                members = member.members + members", "                members = members + member.members"),
+    ('SL2', 'change', 'C14', D, "                if isinstance(member, DelayedReplicationDescriptor):\n                    ret.append(member.factor.id)\n", ""),
+    ('SL3', 'change', 'C14', D, "            ret.append(member.id)\n            if isinstance(member, ReplicationDescriptor):", "            ret.append(member.id)\n            if isinstance(member, SequenceDescriptor):"),
+    ('SL4', 'preserve', 'C14', D, "Get the list of descriptor IDs that can be used to instantiate the Template.", "The ids this template was built from."),
     # ---- stage D: the whole NodePathParser of dataquery.py (stateful class, C15_src_parse_eq) ----------------
     ('D1', 'change', 'C15', Q, "                if self.current_state == STATE_START_PARSING:\n                    self.current_state = STATE_START_SUBSET\n",
      "                if True:\n                    self.current_state = STATE_START_SUBSET\n"),
